@@ -471,6 +471,8 @@ def run_spec(spec, only_w=None):
     handlers = {}
     cancelled_by_driver = set()
     quiescent = []       # indices into rec.log after which the system was quiescent
+    opened = []          # the gate key each 'open' op really opened (None: nothing was awaited)
+    box = {}
 
     def dict_snap(w):
         wf = rec.instances[w]
@@ -504,14 +506,16 @@ def run_spec(spec, only_w=None):
             elif k == "open":
                 if rec.waiting:
                     key = rec.waiting[int(op[1] * len(rec.waiting)) % len(rec.waiting)]
-                    if only_w is not None:
-                        pass
+                    opened.append(key)
                     rec.gates[key].set()
                     rec.log.append(("open", key[0], rec.wf_of.get(key[0], -1), key[1]))
+                else:
+                    opened.append(None)
             elif k == "open-key":
-                key = op[1]
+                key = tuple(op[1])
                 if key in rec.gates and key in rec.waiting:
                     rec.gates[key].set()
+                    rec.log.append(("open", key[0], rec.wf_of.get(key[0], -1), key[1]))
             elif k == "hard-cancel":
                 r = op[1]
                 t = rec.tasks.get(r)
@@ -560,6 +564,7 @@ def run_spec(spec, only_w=None):
                 res[r] = type(t.exception()).__name__
             else:
                 res[r] = "ok"
+        box["n_end"] = len(rec.log)
         return body_end, res
 
     try:
@@ -568,8 +573,9 @@ def run_spec(spec, only_w=None):
             body_end, res = vloop.run(main(), auto=False)
     finally:
         asyncio.Semaphore = orig
-    return dict(rec=rec, log=list(rec.log), body_end=body_end, results=res, quiescent=quiescent,
-                cancelled=cancelled_by_driver, lims=[(i["w"], i["limit"]) for i in spec["instances"]])
+    return dict(rec=rec, log=list(rec.log[:box["n_end"]]), body_end=body_end, results=res, quiescent=quiescent,
+                cancelled=cancelled_by_driver, opened=opened, wf_of=dict(rec.wf_of),
+                lims=[(i["w"], i["limit"]) for i in spec["instances"]])
 
 
 def trace_of(obs):
@@ -710,8 +716,11 @@ def monitor(obs, spec):
                                 % (ww, n, len(execu), execu), dict(log_index=idx)))
         elif kind == "exit":
             active[r] = active.get(r, 0) - 1
-        elif kind == "dict" and idx + 1 < len(log) and False:
-            pass
+        elif kind == "rel":
+            if active.get(r, 0) > 0:
+                out.append(("C30/permit-released-while-steps-run",
+                            "run %d of instance %d released its permit while %d of its steps were still executing"
+                            % (r, wf_of.get(r, w), active[r]), dict(log_index=idx, run=r)))
     # work conservation at quiescent points: a run waits only while its own instance is full
     # (every admitted unfinished run sits in a gated step at a quiescent point)
     act2, wf2, alive, cancelled_now = {}, {}, {}, set()
@@ -762,26 +771,60 @@ def monitor(obs, spec):
 
 
 def projection(obs, w):
-    """What instance w's runs did, in order (used by the independence monitor)."""
-    return [(k, r, x if k in ("enter", "exit") else None) for k, r, ww, x in obs["log"][:obs["body_end"]]
-            if k in ("start", "enter", "exit") and obs["rec"].wf_of.get(r, ww) == w]
+    """What instance w looks like at every quiescent point of the driver script: its semaphore
+    (counter, queue in order) and which of its runs execute how many steps.  (The order in which
+    simultaneously ready tasks of different runs are resumed inside one settle is not compared:
+    it depends on timer-heap and done-set order, not on the limit.)"""
+    out, active = [], {}
+    for k, r, ww, x in obs["log"][:obs["body_end"]]:
+        if k == "enter" and obs["wf_of"].get(r) == w:
+            active[r] = active.get(r, 0) + 1
+        elif k == "exit" and obs["wf_of"].get(r) == w:
+            active[r] = active.get(r, 0) - 1
+        elif k == "dict" and ww == w:
+            out.append((tuple(x), tuple(sorted((q, a) for q, a in active.items() if a > 0))))
+    return out
 
 
-def deterministic_ops(spec, obs):
-    """Rewrite random 'open' choices as the concrete gate keys that were opened (for re-execution)."""
-    ops = []
-    opened = [(k, r, w, x) for k, r, w, x in obs["log"] if k == "open"]
-    it = iter(opened)
+def alone_spec(spec, obs, w):
+    """The same driver script restricted to instance w (gates addressed by the keys really opened)."""
+    ops, it = [], iter(obs["opened"])
     for op in spec["ops"]:
         if op[0] == "open":
-            ops.append(op)
+            key = next(it)
+            if key is not None and obs["wf_of"].get(key[0]) == w:
+                ops.append(("open-key", key))
+        elif op[0] == "start":
+            if op[2] == w:
+                ops.append(op)
+        elif op[0] in ("hard-cancel", "soft-cancel"):
+            if obs["wf_of"].get(op[1]) == w:
+                ops.append(op)
         else:
             ops.append(op)
-    return ops
+    return dict(instances=spec["instances"], ops=ops)
 
 
-def run_case(rng, big=False):
-    spec = gen_run_spec(rng, big)
+def independence_monitor(spec, obs):
+    """Instance w behaves exactly as it does when the other instances are never started."""
+    out = []
+    for ins in spec["instances"]:
+        w = ins["w"]
+        if not any(ww == w for ww in obs["wf_of"].values()):
+            continue
+        alone = run_spec(alone_spec(spec, obs, w))
+        a, b = projection(obs, w), projection(alone, w)
+        if a != b:
+            k = next((i for i, (x, y) in enumerate(zip(a, b)) if x != y), min(len(a), len(b)))
+            out.append(("C30/instances-interfere",
+                        "instance %d behaves differently when the other instances run: event %d is %s, alone %s"
+                        % (w, k, a[k] if k < len(a) else None, b[k] if k < len(b) else None),
+                        dict(instance=w, index=k)))
+    return out
+
+
+def run_case(rng, big=False, spec=None):
+    spec = spec or gen_run_spec(rng, big)
     obs = run_spec(spec)
     trace, fin, stats = trace_of(obs)
     expr = g_case(obs["lims"], trace, fin)
